@@ -59,6 +59,15 @@ func ipNetFuncs(p *Prog) []*ssa.Function {
 
 // refusesColon: the path carries the fact strings.Contains(<string param>, ":") == false.
 func refusesColon(s *Seg) bool {
+	isColonArg := func(v ssa.Value) bool {
+		if cs, ok := constString(v); ok && cs == ":" {
+			return true
+		}
+		if ci, ok := constInt(v); ok && ci == ':' {
+			return true
+		}
+		return false
+	}
 	for _, f := range s.Facts {
 		c := f.Cond
 		neg := false
@@ -69,25 +78,45 @@ func refusesColon(s *Seg) bool {
 			}
 			break
 		}
-		call, ok := c.(*ssa.Call)
+		truth := f.Truth != neg
+		// strings.Contains*(param, ":") == false
+		if call, ok := c.(*ssa.Call); ok {
+			cf := calleeFull(&call.Call)
+			if cf == "strings.Contains" || cf == "strings.ContainsRune" || cf == "strings.ContainsAny" {
+				if _, isParam := s.Resolve(call.Call.Args[0]).(*ssa.Parameter); isParam && isColonArg(call.Call.Args[1]) && !truth {
+					return true
+				}
+			}
+			continue
+		}
+		// strings.Index*(param, ":") compared with -1 / 0: "not found"
+		bo, ok := c.(*ssa.BinOp)
+		if !ok {
+			continue
+		}
+		call, ok := s.Resolve(bo.X).(*ssa.Call)
 		if !ok {
 			continue
 		}
 		cf := calleeFull(&call.Call)
-		if cf != "strings.Contains" && cf != "strings.ContainsRune" && cf != "strings.ContainsAny" {
+		if !strings.HasPrefix(cf, "strings.Index") && !strings.HasPrefix(cf, "strings.LastIndex") {
 			continue
 		}
-		if _, isParam := s.Resolve(call.Call.Args[0]).(*ssa.Parameter); !isParam {
+		if _, isParam := s.Resolve(call.Call.Args[0]).(*ssa.Parameter); !isParam || !isColonArg(call.Call.Args[1]) {
 			continue
 		}
-		has := false
-		if cs, ok := constString(call.Call.Args[1]); ok && cs == ":" {
-			has = true
+		at := func(val int64) (bool, bool) {
+			return EvalCond(s, bo, func(v ssa.Value) (int64, bool) {
+				if s.Resolve(v) == ssa.Value(call) {
+					return val, true
+				}
+				return 0, false
+			})
 		}
-		if ci, ok := constInt(call.Call.Args[1]); ok && ci == ':' {
-			has = true
-		}
-		if has && (f.Truth != neg) == false {
+		notFound, ok1 := at(-1)
+		found0, ok2 := at(0)
+		found5, ok3 := at(5)
+		if ok1 && ok2 && ok3 && notFound == truth && found0 != truth && found5 != truth {
 			return true
 		}
 	}
